@@ -143,3 +143,9 @@ CONSTANTS = dict(AVOGNUM=0.602214129, KEV2ANGST=12.39841930, MEC2=510.998928, RE
 # (chemistry, not taken from the tree; names as the catalogue spells them).  Mixtures, tissues, glasses and four entries whose NIST
 # composition is known to deviate from the textbook formula (Terphenyl, Polychlorostyrene, Polyvinyl Butyral, Cellulose Nitrate) are left out.
 NIST_FORMULAS = {'Acetone': 'C3H6O', 'Acetylene': 'C2H2', 'Adenine': 'C5H5N5', 'Alanine': 'C3H7NO2', 'Aluminum Oxide': 'Al2O3', 'Ammonia': 'NH3', 'Aniline': 'C6H7N', 'Anthracene': 'C14H10', 'Barium Fluoride': 'BaF2', 'Barium Sulfate': 'BaSO4', 'Benzene': 'C6H6', 'Beryllium oxide': 'BeO', 'Bismuth Germanium oxide': 'Bi4Ge3O12', 'Boron Carbide': 'B4C', 'Boron Oxide': 'B2O3', 'Butane': 'C4H10', 'N-Butyl Alcohol': 'C4H10O', 'Cadmium Telluride': 'CdTe', 'Cadmium Tungstate': 'CdWO4', 'Calcium Carbonate': 'CaCO3', 'Calcium Fluoride': 'CaF2', 'Calcium Oxide': 'CaO', 'Calcium Sulfate': 'CaSO4', 'Calcium Tungstate': 'CaWO4', 'Carbon Dioxide': 'CO2', 'Carbon Tetrachloride': 'CCl4', 'Cesium Fluoride': 'CsF', 'Cesium Iodide': 'CsI', 'Chlorobenzene': 'C6H5Cl', 'Chloroform': 'CHCl3', 'Cyclohexane': 'C6H12', '1,2-Ddihlorobenzene': 'C6H4Cl2', 'Dichlorodiethyl Ether': 'C4H8Cl2O', '1,2-Dichloroethane': 'C2H4Cl2', 'Diethyl Ether': 'C4H10O', 'N,N-Dimethyl Formamide': 'C3H7NO', 'Dimethyl Sulfoxide': 'C2H6OS', 'Ethane': 'C2H6', 'Ethyl Alcohol': 'C2H6O', 'Ethylene': 'C2H4', 'Ferric Oxide': 'Fe2O3', 'Ferroboride': 'FeB', 'Ferrous Oxide': 'FeO', 'Freon-12': 'CCl2F2', 'Freon-12B2': 'CBr2F2', 'Freon-13': 'CClF3', 'Freon-13B1': 'CBrF3', 'Freon-13I1': 'CF3I', 'Gadolinium Oxysulfide': 'Gd2O2S', 'Gallium Arsenide': 'GaAs', 'Glucose': 'C6H14O7', 'Glutamine': 'C5H10N2O3', 'Glycerol': 'C3H8O3', 'Guanine': 'C5H5N5O', 'Gypsum, Plaster of Paris': 'CaSO6H4', 'N-Heptane': 'C7H16', 'N-Hexane': 'C6H14', 'Lanthanum Oxybromide': 'LaOBr', 'Lanthanum Oxysulfide': 'La2O2S', 'Lead Oxide': 'PbO', 'Lithium Amide': 'LiNH2', 'Lithium Carbonate': 'Li2CO3', 'Lithium Fluoride': 'LiF', 'Lithium Hydride': 'LiH', 'Lithium Iodide': 'LiI', 'Lithium Oxide': 'Li2O', 'Lithium Tetraborate': 'Li2B4O7', 'Magnesium Carbonate': 'MgCO3', 'Magnesium Fluoride': 'MgF2', 'Magnesium Oxide': 'MgO', 'Magnesium Tetraborate': 'MgB4O7', 'Mercuric Iodide': 'HgI2', 'Methane': 'CH4', 'Methanol': 'CH4O', 'Naphthalene': 'C10H8', 'Nitrobenzene': 'C6H5NO2', 'Nitrous Oxide': 'N2O', 'Octane, Liquid': 'C8H18', 'N-Pentane': 'C5H12', 'Polyethylene': 'CH2', 'Polypropylene': 'C3H6', 'Polystyrene': 'C8H8', 'Polytetrafluoroethylene (Teflon)': 'C2F4', 'Polyvinyl Chloride': 'C2H3Cl', 'Polyoxymethylene': 'CH2O', 'Polyacrylonitrile': 'C3H3N', 'Polyvinyl Alcohol': 'C2H4O', 'Polyvinylidene Fluoride': 'C2H2F2', 'Polyvinylidene Chloride, Saran': 'C2H2Cl2', 'Polyvinyl Acetate': 'C4H6O2', 'Polyethylene Terephthalate (Mylar)': 'C10H8O4', 'Polymethyl Methacralate (Lucite, Perspex)': 'C5H8O2', 'Polycarbonate (Makrolon, Lexan)': 'C16H14O3', 'Kapton Polyimide Film': 'C22H10N2O5', 'Potassium Iodide': 'KI', 'Potassium Oxide': 'K2O', 'Propane': 'C3H8', 'Propane, Liquid': 'C3H8', 'N-Propyl Alcohol': 'C3H8O', 'Pyridine': 'C5H5N', 'Silicon Dioxide': 'SiO2', 'Silver Bromide': 'AgBr', 'Silver Chloride': 'AgCl', 'Silver Iodide': 'AgI', 'Sodium Carbonate': 'Na2CO3', 'Sodium Iodide': 'NaI', 'Sodium Monoxide': 'Na2O', 'Sodium Nitrate': 'NaNO3', 'Stilbene': 'C14H12', 'Sucrose': 'C12H22O11', 'Tetrachloroethylene': 'C2Cl4', 'Thallium Chloride': 'TlCl', 'Titanium Dioxide': 'TiO2', 'Toluene': 'C7H8', 'Trichloroethylene': 'C2HCl3', 'Triethyl Phosphate': 'C6H15O4P', 'Tungsten Hexafluoride': 'WF6', 'Uranium Dicarbide': 'UC2', 'Uranium Monocarbide': 'UC', 'Uranium Oxide': 'UO2', 'Urea': 'CH4N2O', 'Valine': 'C5H11NO2', 'Water, Liquid': 'H2O', 'Water Vapor': 'H2O', 'Xylene': 'C8H10', 'Plutonium Dioxide': 'PuO2', 'Polytrifluorochloroethylene': 'C2F3Cl', 'Polyvinyl Pyrrolidone': 'C6H9NO', 'Rubber, Natural': 'C5H8', 'Rubber, Butyl': 'C4H8', 'Rubber, Neoprene': 'C4H5Cl', 'Nylon, type 6 and type 6/6': 'C6H11NO', 'Nylon, type 11 (Rilsan)': 'C11H21NO', 'Nylon, type 6/10': 'C16H30N2O2'}
+
+
+# Decay modes of the catalogue's radionuclides (nuclear physics, not taken from the tree): the X-rays a source emits are those of the DAUGHTER element -
+# electron capture Z-1, beta-minus Z+1, alpha Z-2.  Used by C15 to tie the field Z_xray to the nuclide it is stored under.
+NUCLIDE_DECAY = {'55Fe': ('EC', -1), '57Co': ('EC', -1), '109Cd': ('EC', -1), '125I': ('EC', -1), '137Cs': ('beta-', +1), '133Ba': ('EC', -1), '153Gd': ('EC', -1),
+                 '238Pu': ('alpha', -2), '241Am': ('alpha', -2), '244Cm': ('alpha', -2)}
